@@ -21,7 +21,7 @@ CLAIMED = {
         text="Constructor rejection outside [0,1], identity on own type, conversion formulas, round trips both ways, fixed points 0 and 1, strict "
              "monotonicity, first+second=1 and the ratio law are postconditions/lemmas on the real Composition constructor, to_molar and to_weight; "
              "each is an unsat query over all fractions and all positive molar masses, including values arbitrarily close to the ends.",
-        note=TB + "class invariant 0<=p<=1 relies on an AST scan showing no assignment to .p anywhere in the package",
+        note=TB + "class invariant 0<=p<=1 relies on an AST scan showing no assignment to .p anywhere in the package and on the obligation attrs.validators-always-run (no writer of the attrs validator switch in the package; native probe when one appears)",
         technique="contracts on the real functions; VCs by symbolic execution of the AST (real attrs validator executed); z3 QF_NRA"),
     'C14': dict(
         level='proof', ref='DESIGN.md 3/C14',
@@ -125,7 +125,7 @@ CLAIMED = {
         text="DiffusionCurve.__attrs_post_init__ is executed symbolically on curves of arbitrary symbolic length (element-wise semantics): from permeances (3 units x 2 "
              "composition bases): permeances exposed in kg units, fluxes = permeance x feed pressure; both supplied: converted/kept; from fluxes produced by the solver's law "
              "at a self-consistent permeate (hypothesis solved for the second permeance): the reported permeances are the original ones in vacuum and temperature mode, and "
-             "re-inversion in vacuum returns the permeances of a permeance-built curve. The permeate-pressure round trip is genuinely violated (known finding K2, semantic fingerprint).",
+             "re-inversion in vacuum returns the permeances of a permeance-built curve; Pervaporation.ideal_diffusion_curve constructs its curve under the very permeate condition, feed temperature and mixture the fluxes were solved for. The permeate-pressure round trip is genuinely violated (known finding K2, semantic fingerprint).",
         note=TB + "frame lemma (no explored path writes to arguments, self, per-instance caches or module state) proved next to the statement, since it relates several calls; get_partial_pressures by contract; self-consistent permeate, non-negative permeances and non-zero driving forces are hypotheses of the statement",
         technique="contracts on the constructor hook; eager element-wise comprehension semantics; ring normal form / z3; fingerprinted known finding"),
     'C06': dict(
@@ -133,8 +133,8 @@ CLAIMED = {
         text="Bottom-up relabelling lemmas: activity coefficients and partial pressures of the real functions on the relabelled mixture (parameters exchanged, p -> 1-p, both bases, "
              "NRTL one/two alphas; UNIQUAC = known finding K1 with fingerprints); the flux solver by lock-step self-composition over its loop (invariant y_b = 1-y_a, d_b = d_a, "
              "partial-pressure swap lemma applied by rewriting) in 3 modes x given/default permeances; the step recurrences of both ideal process models (fluxes exchanged, mass, "
-             "temperature and both heats equal, fractions mirrored) using the solver swap lemma; separation factor and ideal selectivity invert.",
-        note=TB + "frame lemma (no explored path writes to arguments, self, per-instance caches or module state) proved next to the statement, since it relates several calls; callee swap lemmas are proved from the callee bodies in the same check and applied by rewriting once their argument relation is discharged; ideal curves are element-wise solver calls (C08)",
+             "temperature and both heats equal, fractions mirrored) using the solver swap lemma; DiffusionCurve.__attrs_post_init__ on the original and the relabelled mixture (exchanged fluxes, symbolic number of points, 3 modes): derived permeances exchanged; separation factor and ideal selectivity invert.",
+        note=TB + "frame lemma (no explored path writes to arguments, self, per-instance caches or module state) proved next to the statement, since it relates several calls; callee swap lemmas are proved from the callee bodies in the same check and applied by rewriting once their argument relation is discharged; ideal curves are element-wise solver calls (C08) followed by the curve constructor, whose relabelling symmetry is proved here",
         technique="relational verification: lock-step self-composition + lemma rewriting over contracts; ring normal form / z3"),
     'C07': dict(
         level='proof', ref='DESIGN.md 3/C07',
